@@ -349,6 +349,7 @@ pub struct StreamK {
     /// the ping of StreamSource::new, or a wake since the last poll, is outstanding
     pub wake_pending: bool,
     pub items_in_pe: u32,
+    pub polls_at_pe: u32,
 }
 
 struct SStream {
@@ -388,7 +389,7 @@ pub fn insert_stream(sim: &Sim, id: Id, script: &Script) {
     let src = new_src(
         id,
         script,
-        K::Stream(StreamK { shared, expected: VecDeque::new(), next_val: 0, ended: false, none_delivered: false, wake_pending: true, items_in_pe: 0 }),
+        K::Stream(StreamK { shared, expected: VecDeque::new(), next_val: 0, ended: false, none_delivered: false, wake_pending: true, items_in_pe: 0, polls_at_pe: 0 }),
         sh.clone(),
         cbd,
     );
